@@ -534,3 +534,11 @@ PROPS['C12']['rule'] = PROPS['C12']['rule'] + ' || chunk suite (RawMessage.Chunk
 # C10 names EventTime decoding among the entry points: the et suite's decode half (payloads of every length 0..19)
 PROPS['C10']['suites'] = PROPS['C10']['suites'] + [PROPS['C19']['suites'][0]]
 PROPS['C10']['rule'] = PROPS['C10']['rule'] + ' || et suite (EventTime.UnmarshalBinary on payloads of 0..19 bytes)'
+
+# C05: the server-side helpers (NewPing / NewPingWithAuth, ValidatePingDigest, NewPong, ValidatePongDigest) directly
+_HSH_SUITE = dict(suite='hsh', n=dict(quick=1500, thorough=20000), shards=dict(quick=1, thorough=4), trivial=r'^-$')
+PROPS['C05']['suites'] = PROPS['C05']['suites'] + [_HSH_SUITE]
+PROPS['C05']['rule'] = PROPS['C05']['rule'] + (' || hsh suite: NewPing / NewPingWithAuth, ValidatePingDigest, NewPong, ValidatePongDigest called directly with keys, '
+    'salts, nonces and hostnames of 0..600 bytes (around 112 / 128 / 496 / 512), the validating side holding a different key / nonce / salt / '
+    'hostname or a truncated / upper-cased / empty / extended digest; judged against the model and against the formula evaluated on '
+    'digests the harness computes')
